@@ -209,6 +209,13 @@ def loader_rules(ctx):
         check("dot-less name gets the extension even if the bare name exists", L.load("noext")(), "<p>noext.pt in d2</p>")
         check("absolute path honoured", L.load(os.path.join(d2, "x.pt"))(), "<p>x.pt in d2</p>")
         check("same instance for the same name", L.load("x.pt") is L.load("x.pt"), True)
+        # a dot anywhere in the name counts: no extension is added
+        os.mkdir(os.path.join(d1, "v1.0"))
+        for nm in ("v1.0/page", "v1.0/page.pt", "macros", "macros.pt"):
+            open(os.path.join(d1, nm), "w").write("<p>%s literal</p>" % nm)
+        check("dotted directory, extension-less base name: taken literally", L.load("v1.0/page")(), "<p>v1.0/page literal</p>")
+        check("./ prefix: taken literally", L.load("./macros")(), "<p>macros literal</p>")
+        check("dot-less name next to a literal file of that name", L.load("macros")(), "<p>macros.pt literal</p>")
         L2 = TemplateLoader([d1, d2])
         check("no default extension: bare name", L2.load("noext")(), "<p>noext in d1</p>")
         try:
